@@ -7,7 +7,7 @@ import tgen, refcbor, forms
 from tgen import reg_values
 from tgen import T, BYTE_TYPES, TAGGED, TYPED_TYPES, INTS, WIDE, TEXTS
 from forms import vsx, parse, render, canon_nan
-from props_streams import dec_ops, head_variants, int_encodings, C02, lenbytes, NONCANON_PH, nestG, NEST_PATTERNS
+from props_streams import dec_ops, head_variants, int_encodings, C02, lenbytes, NONCANON_PH, nestG, NEST_PATTERNS, tag_wraps, all_tags
 
 # ===================================================================== C06
 @register
@@ -164,6 +164,19 @@ class C07(Prop):
                 ops.append(mk('chain CoseMac b' + (b'\x85' + pb + b'\xa0\xf6\x40\x81\x83' + pb + b'\xa0\xf6').hex(), k='protfloat'))
                 ops.append(mk('chain Header b' + (b'\xa1\x07\x83' + pb + b'\xa0\x40').hex(), k='protfloat'))
                 ops.append(mk('chain CoseKdfContext b' + (b'\x84\x01\x83\xf6\xf6\xf6\x83\xf6\xf6\xf6\x82\x18\x80' + pb).hex(), k='protfloat'))
+        # uninterpreted values that *look like* structures of the crate in a layout the crate itself would not emit (a key with its labels
+        # out of order or its operations unsorted, a header map out of order, a signature, a tagged message, a confirmation claim holding a
+        # key): kept as they are, under every registered name of every table, at every carrier (informed round 10: the `cnf` claim's key
+        # re-laid-out by the encoder)
+        LOOK = ['a203260102', 'a101a203260102', 'a201040482' + '0201', 'a101a2010404820201', 'a2044101' + '0126', '8343a10126a04100', 'd28443a10126a0f640', '8340a0f6', 'a103a2044101' + '0126',
+                'a101a30326200101' + '02', '81a203260102', 'a102' + '8343a10126a0f6', 'a1036131', '43a10126', 'a201a1010202a1010204' [:0] + 'a101a201022001']
+        names = sorted(set(v for nm in ('CwtClaimName', 'HeaderParameter', 'KeyParameter') for v in reg_values(nm)) | {99, -70000, 1000})
+        for lab in names:
+            le = refcbor.encode(('int', lab)).hex()
+            for lk in LOOK:
+                if lab not in range(1, 8) and (lab in reg_values('CwtClaimName') or lab < -65536): ops.append(mk('chain ClaimsSet ba1' + le + lk, k='look-alike'))
+                if lab not in range(1, 8): ops.append(mk('chain Header ba1' + le + lk, k='look-alike')); ops.append(mk('chain CoseSign1 b8440a1' + le + lk + 'f640', k='look-alike'))
+                if lab not in range(1, 6): ops.append(mk('chain CoseKey ba20104' + le + lk, k='look-alike'))
         # exhaustive short
         for t in ('Value', 'Label', 'Header', 'CoseKey', 'ClaimsSet', 'PartyInfo'):
             for a in range(256):
@@ -205,6 +218,9 @@ def header_palette(g, r, label):
         ws = [chr(c) for c in (0x9, 0xa, 0xb, 0xc, 0xd, 0x20, 0x85, 0xa0, 0x1680, 0x2000, 0x2001, 0x2005, 0x200a, 0x2028, 0x2029, 0x202f, 0x205f, 0x3000, 0x200b, 0xfeff, 0x180e, 0x1c, 0x1f)]
         t = [Tx(b''), Tx(b'a'), Tx(b'a/b'), Tx(b'a/b/c'), Tx(b'/'), Tx(b'//'), Tx('é/ü'.encode()), Tx(b'a /b')]
         t += [Tx((w + 'a/b').encode()) for w in ws] + [Tx(('a/b' + w).encode()) for w in ws]
+        # "exactly one": counts around every width a counter could be narrowed to (informed round 10: `count() as u8 != 1` accepts 257)
+        t += [Tx(b'a' + b'/x' * k) for k in (2, 3, 4, 255, 256, 257, 258, 511, 513)]
+        t += [Tx(x) for x in ('a/b\u2215c'.encode(), 'a\u2215b'.encode(), 'a\u2044b'.encode(), 'a\uff0fb'.encode(), b'a\\b', b'a/b;c', b'a/', b'/b')]
         return common + t + [I(0), I(60), I(11542), I(11543), I(65535), I(1), I(-1), I(2**63)]
     if label in (4, 5, 6): return common + [B(b'\x00'), B(b'ab'), B(b'x' * 24)]
     if label == 7:
@@ -240,6 +256,9 @@ def hdr_rule_stream(g, r, n, wrap):
         ops.append(('map', [(I(a), ('bytes', b'\x01')), (I(9), I(0)), (I(b), ('bytes', b'\x02'))]))
         ops.append(('map', [(I(a), ('bytes', b'\x01')), (I(b), ('bytes', b''))]))
     for v in (I(1), ('bytes', b''), ('array', []), ('text', b''), ('null',)): ops.append(v)
+    hm = ('map', [(I(1), I(-7))])
+    for tg in all_tags(): ops += [('tag', tg, hm), ('tag', tg, ('map', []))]
+    ops += [('tag', 55799, ('tag', 55799, hm)), ('bytes', refcbor.encode(hm)), ('array', [hm])]
     return [wrap(v) for v in ops]
 
 @register
@@ -280,6 +299,17 @@ class C08(Prop):
                     ops.append(mk('dec CoseKey b' + refcbor.encode(('map', [(I_(1), I_(1))] + m)).hex(), k='near-dup')); ops.append(mk('dec ClaimsSet b' + e, k='near-dup'))
         return ops
     def judge_pairs(self): return True
+    def child_ops(self, tier):
+        """content types with 2^16 ± 1 and 2^32-ish many separators (implementation only; the oracle is the rule: not exactly one, so refused)"""
+        out = []
+        for k in (65535, 65536, 65537, 65538) + ((1 << 24) + 1,) * (tier == 'thorough'):
+            t = b'a' + b'/x' * k
+            for pre, post, ty in ((b'\xa1\x03', b'', 'Header'), (b'\x84\x40\xa1\x03', b'\xf6\x40', 'CoseSign1')):
+                out.append(mk('dec %s b%s' % (ty, (pre + refcbor.head(3, len(t)) + t + post).hex()), k='many-slashes', n=k, timeout=60, gen='content type with %d separators' % k))
+        return out
+    def impl_pred(self, o, impl):
+        if o['meta'].get('k') == 'many-slashes' and not impl.startswith('err'): return 'a content type with %d separators was not refused (%s)' % (o['meta']['n'], impl[:30])
+        return None
 
 @register
 class C09(Prop):
@@ -319,6 +349,10 @@ class C09(Prop):
                 ('array', [('array', [B(b''), ('map', []), ('null',), ('array', [rcp4])])]), ('array', [('array', [B(b''), ('map', []), ('null',), ('array', [badrcp])])]), ('tag', 18, ('array', [])),
                 # a bare structure where a list of them belongs (seeded C09-r3), at top level and one level down
                 sig, rcp, rcp4, badsig, sig2, ('array', [('array', [B(b''), ('map', []), ('null',), rcp])]), ('array', [B(b''), ('map', []), ('null',), rcp])]
+        # inside the protected byte string: exactly one header map — not a tagged map (any tag, once or twice), not a byte string holding
+        # one, not a map followed by anything, not an array around one (informed round 10: one tag level stripped there)
+        slot += [B(refcbor.head(6, tg) + bytes.fromhex('a10126')) for tg in all_tags()] + [B(bytes.fromhex('d9d9f7d9d9f7a10126')), B(bytes.fromhex('d818d818a0')), B(bytes.fromhex('43a10126')), B(bytes.fromhex('81a10126')),
+                 B(bytes.fromhex('a10126a0')), B(bytes.fromhex('c6a0')), B(bytes.fromhex('d83da0')), ('tag', 24, B(bytes.fromhex('a10126'))), ('tag', 55799, ('map', [])), ('tag', 61, ('map', [(I(4), B(b'k'))]))]
         good = {3: [B(b''), ('map', []), B(b'x')], 4: [B(b''), ('map', []), B(b'p'), B(b's')], 5: [B(b''), ('map', []), B(b'p'), B(b't'), ('array', [rcp])]}
         for arity in range(0, 8):
             for _ in range(budget(tier, 120, 2500)):
@@ -341,6 +375,9 @@ class C09(Prop):
                     for t in self.STRUCTS: ops.append(mk('dec %s b%s' % (t, b), k='subst%d' % arity))
         for v in (('map', []), I(1), B(b''), ('null',), ('tag', 18, ('array', good[4]))):
             for t in self.STRUCTS: ops.append(mk('dec %s b%s' % (t, refcbor.encode(v).hex()), k='nonarray'))
+        for arity, tmpl in good.items():
+            for w_ in tag_wraps(refcbor.encode(('array', tmpl))):
+                for t in self.STRUCTS: ops.append(mk('dec %s b%s' % (t, w_.hex()), k='tag-wrapped'))
         # counter-signature nesting around the budget (16), through every header slot of every structure, bare and list forms mixed
         # (informed round 8: the list form restarted the budget in one decoder arm; another entry point got one level less)
         for k in (15, 16, 17, 18, 33):
@@ -398,6 +435,14 @@ class C10(Prop):
         for v in (('map', []), I(1), A([]), A([I(1)]), A([('map', [])]), ('null',)):
             ops.append(mk('dec CoseKeySet b' + refcbor.encode(v).hex(), k='keyset')); ops.append(mk('dec CoseKey b' + refcbor.encode(v).hex(), k='key'))
         ops += dec_ops(g, r, budget(tier, 2000, 40000), types=['CoseKey', 'CoseKeySet'], mut=0.05)
+        # a key under a tag, a key set under a tag, a bare key where a set belongs and a set where a key belongs (informed round 10: a
+        # bare key accepted as the one-element set of it by the byte-level decoder only)
+        for body in ('a10102', 'a2010420420102', 'a301040241310381' [:-2] if False else 'a3010402413103' + '26'):
+            kb = bytes.fromhex(body)
+            for w_ in tag_wraps(kb): ops.append(mk('dec CoseKey b' + w_.hex(), k='tag-wrapped'))
+            for w_ in tag_wraps(b'\x81' + kb): ops.append(mk('dec CoseKeySet b' + w_.hex(), k='tag-wrapped'))
+            ops.append(mk('dec CoseKeySet b' + body, k='bare-key')); ops.append(mk('dec CoseKey b81' + body, k='set-for-key')); ops.append(mk('dec CoseKeySet b8181' + body, k='bare-key'))
+            ops.append(mk('dec CoseKeySet b' + refcbor.head(2, len(kb)).hex() + body, k='bare-key')); ops.append(mk('dec CoseKeySet b81' + refcbor.head(2, len(kb)).hex() + body, k='bare-key'))
         # repeated labels among neighbours of every kind (the stream of C12, restricted to keys): "pairwise distinct labels"
         ops += [mk(o['op'], k='dup-key') for o in C12().gen(seed + 3, tier) if o['meta'].get('k') == 'dup:CoseKey']
         return ops
@@ -520,6 +565,15 @@ class C12(Prop):
             else:
                 cs = b'\x83' + refcbor.head(2, len(m)) + m + b'\xa0\x40'
                 ops.append(mk('dec Header b' + (b'\xa1\x07' + cs).hex(), k='dup:csig', dup=True))
+        # the repeated label at every nesting level down to the deepest permitted one, through every carrier form (informed round 10: the
+        # duplicate lookup skipped where the nesting budget is used up)
+        for _ in range(budget(tier, 600, 8000)):
+            m = dupmap('Header'); k = r.choice([1, 2, 3, 8, 15, 15, 16, 16, 16]); pat = r.choice(NEST_PATTERNS)
+            h = nestG(k, pat, inner=m)
+            c = r.random()
+            if c < 0.4: ops.append(mk('dec Header b' + h.hex(), k='dup:deep', dup=True, n=k))
+            elif c < 0.7: ops.append(mk('dec CoseSign1 b' + (b'\x84\x40' + h + b'\xf6\x40').hex(), k='dup:deep', dup=True, n=k))
+            else: ops.append(mk('dec CoseEncrypt0 b' + (b'\x83' + refcbor.head(2, len(h)) + h + b'\xa0\xf6').hex(), k='dup:deep', dup=True, n=k))
         # encode side: extras repeating a label / naming a typed label
         for _ in range(budget(tier, 2500, 40000)):
             c = r.random()
@@ -632,6 +686,16 @@ class C13(Prop):
         for _ in range(budget(tier, 800, 10000)):
             t = r.choice(TYPED_TYPES)
             ops.append(mk('layer %s b%s' % (t, g.venc(g.wire(t)).hex()), k='layer'))
+        # every type's valid encoding handed to every other type's decoder, at both layers (informed round 10: the byte-level decoder of
+        # COSE_KeySet accepted a bare key as the one-element set; the value-level one did not)
+        for t1 in BYTE_TYPES:
+            bodies = [g.venc(g.wire(t1)) for _ in range(budget(tier, 2, 8))]
+            if t1 == 'CoseKey': bodies += [bytes.fromhex('a10102'), bytes.fromhex('a2010420420102')]
+            for b in bodies:
+                for t2 in BYTE_TYPES:
+                    if t2 != t1: ops.append(mk('layer %s b%s' % (t2, b.hex()), k='layer', cross=t1))
+                for t2 in ('CoseKeySet', 'CoseSign', 'CoseEncrypt', 'Header'):
+                    ops.append(mk('layer %s b%s' % (t2, (b'\x81' + b).hex()), k='layer', cross=t1)); ops.append(mk('layer %s b%s' % (t2, (refcbor.head(2, len(b)) + b).hex()), k='layer', cross=t1))
         # a correctly tagged item under another tag is not a tagged item of the type (informed round 9: the tagged byte-level decoder
         # retried on the content of a wrong tag)
         for t, tag in TAGGED.items():
